@@ -306,6 +306,25 @@ def run(ctx, rep):
         fl = [n for n in find_all(fbody, lambda n: n.get('k') == 'for')]
         okp = any(render(n['iter']).endswith('parameters') and find_all(n['body'], lambda x: x.get('k') == 'mcall' and x['method'] == 'define') for n in fl)
         ok = ok and okp
+    if not ok:
+        # the same order read from the compiler shape analysis (helpers and closures followed): on every path of the Function arm
+        # a named function is declared before its context opens, every parameter is declared inside the new context before the
+        # body is compiled, and the context is left after the body
+        fa = [a for a in R['arms'] if a['method'] == 'compile_expression' and a['trace'].startswith('Expr::Function')]
+        okc = bool(fa)
+        for a in fa:
+            ops = a.get('symops') or []
+            kinds = [o[0] for o in ops]
+            if 'new_context' not in kinds or 'leave_context' not in kinds:
+                okc = False
+                continue
+            i_new, i_leave = kinds.index('new_context'), len(kinds) - 1 - kinds[::-1].index('leave_context')
+            body = [i for i, o in enumerate(ops) if o[0] == 'compile' and o[2] and str(o[2]).endswith('.body')]
+            params = [i for i, o in enumerate(ops) if o[0] == 'define' and o[2] and 'parameters' in str(o[2])]
+            named = [i for i, o in enumerate(ops) if o[0] == 'define' and o[2] and str(o[2]).endswith('.name')]
+            if not body or not (i_new < body[0] < i_leave) or any(not (i_new < i < body[0]) for i in params) or any(i > i_new for i in named):
+                okc = False
+        ok = okc
     rep.ob(ok, 'R09.5', 'compiler::Compiler::compile_expression', 'Expr::Function order', 'define(name); new_context(); define(parameters in order); body; leave_context()', 'src/compiler.rs')
 
 
